@@ -439,10 +439,57 @@ func c08TLSRun(c c08TLSCase) Verdict {
 	return v
 }
 
+// ---- Server.Close / Shutdown landing while a callback is in progress ----
+
+// c08SrvCloseGen builds a C20-style schedule (the runner is shared) in which
+// the server is closed or shut down exactly while a callback of the single
+// connection is parked on a gate, and the callback returns only afterwards.
+func c08SrvCloseGen(t *rapid.T) c20Case {
+	c := c20Case{LMTP: rapid.Bool().Draw(t, "lmtp"), PerRcpt: rapid.Bool().Draw(t, "perrcpt"), NConns: 1,
+		Gate: rapid.SampledFrom([]string{"newsession", "mail", "rcpt", "pre", "post", "start"}).Draw(t, "gate")}
+	add := func(op string, wait bool) { c.Steps = append(c.Steps, c20Step{Conn: 0, Op: op, Wait: wait}) }
+	global := func() {
+		c.Steps = append(c.Steps, c20Step{Conn: -1, Op: rapid.SampledFrom([]string{"close", "close", "shutdown"}).Draw(t, "global")},
+			c20Step{Conn: -1, Op: "settle"})
+	}
+	// an earlier, complete session on the connection's first greeting
+	switch c.Gate {
+	case "newsession":
+		add("greet", true)
+		global()
+		add("release", true)
+	case "mail", "rcpt":
+		add("greet", true)
+		add("envelope", true)
+		for i, n := 0, rapid.IntRange(0, 2).Draw(t, "released_first"); i < n && c.Gate == "rcpt"; i++ {
+			add("release", true)
+		}
+		global()
+		add("release", true)
+		add("release", true)
+		add("release", true)
+	default:
+		add("greet", true)
+		add("envelope", true)
+		add(rapid.SampledFrom([]string{"data", "chunk", "chunk"}).Draw(t, "transfer"), true)
+		if c.Steps[len(c.Steps)-1].Op == "chunk" && rapid.Bool().Draw(t, "second_chunk") {
+			add("chunk", true)
+		}
+		global()
+		add("release", true)
+	}
+	for i, n := 0, rapid.IntRange(0, 2).Draw(t, "more"); i < n; i++ {
+		add(rapid.SampledFrom([]string{"greet", "envelope", "last", "rset", "release"}).Draw(t, "after"), true)
+	}
+	add(rapid.SampledFrom([]string{"quit", "eof", "abort"}).Draw(t, "end"), true)
+	return c
+}
+
 var (
-	c08Cuts  *subCheck[c07Case]
-	c08Close *subCheck[c08CloseCase]
-	c08TLS   *subCheck[c08TLSCase]
+	c08SrvClose *subCheck[c20Case]
+	c08Cuts     *subCheck[c07Case]
+	c08Close    *subCheck[c08CloseCase]
+	c08TLS      *subCheck[c08TLSCase]
 )
 
 func init() {
@@ -450,16 +497,21 @@ func init() {
 		c08Cuts = newSub("C08", "cuts", c08CutRun)
 		c08Close = newSub("C08", "close", c08CloseRun)
 		c08TLS = newSub("C08", "starttls", c08TLSRun)
+		c08SrvClose = newSub("C08", "srvclose", c20Run)
 	})
 }
 
 func TestC08(t *testing.T) {
 	registerAll()
-	st.Rule = "cases = (conversation, cut offset, fault) for every cut offset of generated conversations; (close reason quit|errors|longline|timeout|backend panic in each callback, prefix history, suffix of commands buffered in the same segment), judged metamorphically against the same run without suffix; (history, STARTTLS, history inside TLS); non-trivial = close reason with a non-empty buffered suffix OR a cut inside a transaction OR a STARTTLS session replacement; distinct = hash of the whole case"
+	st.Rule = "cases = (conversation, cut offset, fault) for every cut offset of generated conversations; (close reason quit|errors|longline|timeout|backend panic in each callback, prefix history, suffix of commands buffered in the same segment), judged metamorphically against the same run without suffix; (history, STARTTLS, history inside TLS); (Server.Close or Shutdown landing while NewSession/Mail/Rcpt/Data of the connection is parked on a gate, the callback returning afterwards); non-trivial = close reason with a non-empty buffered suffix OR a cut inside a transaction OR a STARTTLS session replacement; distinct = hash of the whole case"
 	if !regress(t, "C08") {
 		return
 	}
 	c08Close.rapidCheck(t, pickTier(1500, 12000), c08GenClose)
+	if t.Failed() {
+		return
+	}
+	c08SrvClose.rapidCheck(t, pickTier(400, 4000), c08SrvCloseGen)
 	if t.Failed() {
 		return
 	}
